@@ -192,6 +192,18 @@ def gen_cases(tier: str, seed: int) -> List[Dict]:
             b["slots"][0] = [big - 1 for _ in b["slots"][0]]
             n += 1
             cases.append({"id": "%s-%03d-pair-dtype-%s-%s" % (PROP, n, d1, d2), "op": "compare", "operands": [a, b], "options": opt, "limits": lim})
+    # a narrow float polynomial against a number that the narrow type cannot hold exactly, carried as python float / 0-d array:
+    # the order must be that of the exact values (float32(0.1) > 0.1), whatever the carrier of the number
+    from fractions import Fraction as _F
+
+    for dt in ("float32", "float16"):
+        for val in (0.1, 1.0 / 3.0, 2.7):
+            narrow = _F(float(numpy.dtype(dt).type(val)))
+            for carrier in ("pyfloat", "array0d"):
+                a = {"kind": "poly", "names": ["q0"], "exps": [[0]], "shape": [], "slots": [[S.lit(narrow)]], "mode": "raw", "dtype": dt}  # (decided at the constant term)
+                b = {"kind": "scalar", "shape": [], "slots": [S.lit(_F(val))], "carrier": carrier}
+                n += 1
+                cases.append({"id": "%s-%03d-pair-narrowfloat" % (PROP, n), "op": "compare", "operands": [a, b] if n % 2 else [b, a], "options": rng.choice(settings), "limits": lim})
     # operands whose names are stored in non-index order (leaves of numpoly.symbols("q1 q0")): the documented order is by name
     for opt in settings:
         for names, exps in [(("q1", "q0"), [[1, 0], [0, 1], [0, 0]]), (("q2", "q0", "q1"), [[1, 0, 0], [0, 1, 0], [0, 0, 1]]), (("q10", "q2"), [[1, 0], [0, 1], [1, 1]])]:
